@@ -240,7 +240,9 @@ type wsRun struct {
 	limbo      []*wsCall
 }
 
-var serverIDs = []string{"0xa1", "0xb2", "0xc3", "0xd4", "0xe5"}
+// server-assigned subscription ids are opaque strings: two of them differ only in letter case,
+// two only in a leading zero, one is not hex at all
+var serverIDs = []string{"0xa1", "0xA1", "0xb2", "0x0b2", "sub-C3"}
 
 func (r *wsRun) fail(clause, format string, a ...interface{}) {
 	if len(r.vs) < 6 {
